@@ -288,7 +288,17 @@ def check_rows(lab, res, where, use_log=True, **kw):
                 res.viol('row-not-evaluated', where, 'posterior row %d was '
                          'never passed to the likelihood' % i)
                 return
+            ll_pure = ll
             ll, bt = logd[key][0]
+            # what was logged is also what the configured likelihood (incl.
+            # likelihood_kwargs) gives for this point
+            if prob.bitexact and np.float64(ll).tobytes() != np.float64(
+                    ll_pure).tobytes():
+                res.viol('row-log_l', where + ':configured-likelihood',
+                         'row %d: the likelihood was called so that it '
+                         'returned %r, as configured it returns %r' % (
+                             i, ll, ll_pure))
+                return
         same = (np.float64(ll).tobytes() == np.float64(log_l[i]).tobytes()
                 if (prob.bitexact or logd is not None) else
                 abs(ll - log_l[i]) <= 1e-9 * max(1, abs(ll)))
